@@ -24,7 +24,7 @@ DEADLINE = 300
 
 def cases(tier, seed):
     rng = random.Random(f"C04/{seed}")
-    nmax, count = (7, 20000) if tier == "quick" else (9, 60000)
+    nmax, count = (7, 20000) if tier == "quick" else (9, 120000)
     cl = [("rand", 4), ("gadget", 4), ("inputs", 2), ("dense-neg", 1), ("rand-wide", 1), ("overlap-maa", 0.3)]
     nets = gen.corpus() + [gen.draw(rng, cl, nmax) for _ in range(count)]
     out = []
